@@ -40,8 +40,11 @@ pub assume_specification<'a>[ str::split_at_checked ](s: &'a str, mid: usize) ->
 pub assume_specification<T: PartialEq>[ <[T]>::contains ](s: &[T], x: &T) -> (r: bool)
     ensures r == s@.contains(*x);   // assumes T's PartialEq is structural
 
-pub broadcast axiom fn axiom_clen_bounds(c: char)
-    ensures 1 <= #[trigger] clen(c) <= 4;
+/// a char encodes to 1..4 bytes (from vstd's definition of encode_scalar)
+pub broadcast proof fn lemma_clen_bounds(c: char)
+    ensures 1 <= #[trigger] clen(c) <= 4
+{
+}
 
 pub axiom fn axiom_str_blen(s: &str)
     ensures blen(s@) <= usize::MAX;
